@@ -250,7 +250,21 @@ func cmdCheck(args []string) int {
 			sweepFns++
 		}
 	}
-	// spec lemmas
+	// spec lemmas (listed in the property file, or used by a verified function)
+	lemmaSeen := map[string]bool{}
+	for _, ln := range ps.Lemmas {
+		lemmaSeen[ln] = true
+	}
+	for _, fn := range targets {
+		if fc := prog.Contracts[funcKey(fn)]; fc != nil {
+			for _, ln := range fc.Uses {
+				if !lemmaSeen[ln] {
+					lemmaSeen[ln] = true
+					ps.Lemmas = append(ps.Lemmas, ln)
+				}
+			}
+		}
+	}
 	for _, ln := range ps.Lemmas {
 		var lm *SpecLemma
 		for _, l := range prog.Spec.Lemmas {
